@@ -118,7 +118,9 @@ def runner(rep, tier, seed, replay):
         check_fds_helper(rep, run)
         return rep.finish(rule="replay of one recorded session")
     # (M) design-level model of the pipeline's descriptor discipline
-    for cfg in (["MCPipeline_3", "MCPipeline_f3"] if tier == "quick" else ["MCPipeline_3", "MCPipeline_4", "MCPipeline_f3", "MCPipeline_f4", "MCPipeline_cap"]):
+    for cfg in (["MCPipeline_3", "MCPipeline_f3", "MCPipeline_here"] if tier == "quick"
+                else ["MCPipeline_3", "MCPipeline_4", "MCPipeline_f3", "MCPipeline_f4", "MCPipeline_cap", "MCPipeline_capE2", "MCPipeline_here",
+                      "MCPipeline_here1", "MCPipeline_hereE"]):
         r = run_tlc("MCPipeline", cfg, timeout=3000)
         if r.violation:
             raise ToolError("Pipeline model violates a descriptor invariant (%s):\n%s" % (cfg, r.violation[:2500]))
